@@ -387,10 +387,16 @@ def _same(rid, site, law, x, y, sh, case, pi=None, mul=None, err=None):
 
 
 def _import_record(rid, site, gd, sampled, stimes, Ne, events, orders, err, case):
+    if stimes is None:
+        # documented default: every deme is sampled at the end of its existence
+        ends = {d['name']: d['epochs'][-1]['end_time'] for d in gd['demes']}
+        if any(ends.get(x, 0.0) != 0.0 for x in sampled):
+            stimes = [ends.get(x, 0.0) for x in sampled]
     r = {'id': rid, 'op': 'import', 'site': site, 'case': _cs(case),
          'in': {'graph': enc_graph(gd), 'sampled': list(sampled), 'stimes': [] if stimes is None else [rat(t) for t in stimes],
                 'Ne': 'none' if Ne is None else rat(Ne),
-                'fnames': [] if stimes is None else [frozen_name(d, t) for d, t in zip(sampled, stimes)],
+                # dadi labels an ancient sample with the float (t - tmin) + tmin
+                'fnames': [] if stimes is None else [frozen_name(d, (t - min(stimes)) + min(stimes)) for d, t in zip(sampled, stimes)],
                 'ev': orders or [], 'pow': pow_table(gd, stimes)},
          'out': {'events': [{k: v for k, v in e.items() if k != 'f'} for e in (events or [])]}}
     if err:
@@ -458,8 +464,8 @@ def prog_case_records(case, rng):
         gd = None
         out = {'raised': '%s:%s' % (type(ex).__name__, str(ex)[:80])}
     recs.append({'id': cid + '-export', 'op': 'export', 'site': _site('Demes.output', P), 'in': exp_in, 'out': out, 'case': _cs(case)})
-    if gd is None:
-        return recs
+    if gd is None or not set(leaves) <= {d['name'] for d in gd['demes']}:
+        return recs          # the export record carries the verdict; nothing to sample by the documented names
     # (c) re-import (reference size = Nref, so that theta means the same as in the native program)
     Ne = None if nu0 == 1.0 else Nref
     site = _site('Spectrum.from_demes', P)
@@ -526,6 +532,8 @@ def ancient_records(case, rng):
         leaves = final_ids(prog)
     except Exception:
         return []           # reported by the export record of the plain case
+    if not set(leaves) <= {d['name'] for d in gd['demes']}:
+        return []
     T = e['T']
     T1, T2 = T * (1 - phi), T * phi
     t = T2 * 2 * Nref * (gt or 1.0)
@@ -709,6 +717,16 @@ def gen_graph(rng, maxd, feats):
     for lo, hi in zip(bps[:-1], bps[1:]):
         if sum(1 for d in gd['demes'] if d['start_time'] >= hi and d['epochs'][-1]['end_time'] <= lo) > maxd:
             return None
+    # dadi creates a merged / admixed deme as a new axis before the parents that end are integrated out: while that
+    # happens no more than 5 axes may exist (a documented limit: "Cannot apply admix that creates more than 5 demes")
+    for c in gd['demes']:
+        if len(c['ancestors']) >= 2:
+            t = c['start_time']
+            before = sum(1 for d in gd['demes'] if d['start_time'] > t >= d['epochs'][-1]['end_time'])
+            born = sum(1 for d in gd['demes'] if d['start_time'] == t and (len(d['ancestors']) >= 2 or
+                       (len(d['ancestors']) == 1 and [x for x in gd['demes'] if x['name'] == d['ancestors'][0]][0]['epochs'][-1]['end_time'] != t)))
+            if before + born > 5:
+                return None
     return gd, [d['name'] for d in gd['demes'] if d['epochs'][-1]['end_time'] == 0]
 
 
